@@ -344,8 +344,8 @@ func reqFromRaw(raw string) (uReq, bool) {
 					req.Filter = "bad"
 				}
 			default:
-				var f jsonapi.Filter
-				if json.Unmarshal([]byte(vals[0]), &f) == nil {
+				// (classified without the library: its own unmarshaler is what is under test)
+				if json.Valid([]byte(vals[0])) {
 					req.Filter = "json"
 				} else {
 					req.Filter = "bad"
@@ -570,6 +570,15 @@ var (
 		`{"o":"and","v":[{"o":"or","v":[{"f":"x","o":"=","v":"a"}]}]}`,
 		`{"o":"or","v":[{"f":"y","o":">","v":1}]}`,
 		`{"o":"or","v":[{"o":"and","v":[{"o":"or","v":[]}]}]}`,
+		// well-formed JSON that is an odd filter: refused or kept, never a panic
+		`{"o":"and","v":[null]}`,
+		`{"o":"or","v":[{"o":"and","v":[null,{}]}]}`,
+		`{"f":"x","o":"=","v":null}`,
+		`{}`,
+		`{"o":"and","v":null}`,
+		`{"o":"and","v":[1,"a"]}`,
+		`{"f":1}`,
+		`{"o":"and","v":[{}]}`,
 	}
 )
 
